@@ -65,6 +65,107 @@ set_option maxHeartbeats 4000000 in
 theorem exec_total (i : Instr) (s : St) : ∃ t, exec Impl.koron i s = .ok () t := by
   instr_cases i
 
+def setIR (r : Register) (s : St) : St := { s with IR := r }
+
+macro "frame_fin2" : tactic =>
+  `(tactic| (simp [z80spec, setIR] <;> (repeat' (split <;> simp_all [setIR]))))
+
+set_option maxHeartbeats 4000000 in
+/-- no instruction other than LD A,I / LD A,R / LD I,A / LD R,A reads or writes I or R -/
+theorem exec_IR_blind (i : Instr) (h1 : i ≠ .ldAI) (h2 : i ≠ .ldAR) (h3 : i ≠ .ldIA) (h4 : i ≠ .ldRA) (r : Register) (s : St) :
+    exec Impl.koron i (setIR r s) = (exec Impl.koron i s).mapSt (setIR r) := by
+  cases i
+  case ldAI => exact absurd rfl h1
+  case ldAR => exact absurd rfl h2
+  case ldIA => exact absurd rfl h3
+  case ldRA => exact absurd rfl h4
+  case ld8 d s' => cases d <;> cases s' <;> frame_fin2
+  case alu op src => cases src <;> frame_fin2
+  case bit b l => cases l <;> frame_fin2
+  case res b l => cases l <;> frame_fin2
+  case set b l => cases l <;> frame_fin2
+  case rot k l => cases l <;> frame_fin2
+  case inc8 l => cases l <;> frame_fin2
+  case dec8 l => cases l <;> frame_fin2
+  case ld8n l => cases l <;> frame_fin2
+  case add16 d s' => cases d <;> cases s' <;> frame_fin2
+  case blk k d r => cases k <;> frame_fin2
+  case jpcc c => cases c <;> frame_fin2
+  case jrcc c => cases c <;> frame_fin2
+  case callcc c => cases c <;> frame_fin2
+  case retcc c => cases c <;> frame_fin2
+  all_goals first | frame_fin2 | (rename_i a; cases a <;> frame_fin2)
+
+/-- hence I and R come out of such an instruction exactly as they went in -/
+theorem exec_IR_kept (i : Instr) (h1 : i ≠ .ldAI) (h2 : i ≠ .ldAR) (h3 : i ≠ .ldIA) (h4 : i ≠ .ldRA) (s t : St)
+    (h : exec Impl.koron i s = .ok () t) : t.IR = s.IR := by
+  have hc := exec_IR_blind i h1 h2 h3 h4 s.IR s
+  have e : setIR s.IR s = s := rfl
+  rw [e, h] at hc
+  simp only [Res.mapSt_ok, Res.ok.injEq, true_and] at hc
+  rw [hc]; rfl
+
+-- ---------------------------------------------------------------------------
+-- port traffic
+
+/-- observe something of the final state of a result -/
+def Res.proj {α β} (f : St → β) (d : β) : Res α → β
+  | .ok _ s => f s
+  | .panic _ => d
+@[simp] theorem Res.proj_ok {α β} (f : St → β) (d : β) (a : α) (s : St) : (Res.ok a s).proj f d = f s := rfl
+@[simp] theorem Res.proj_panic {α β} (f : St → β) (d : β) (w : String) : (Res.panic w : Res α).proj f d = d := rfl
+@[simp] theorem Res.proj_ite {α β} (f : St → β) (d : β) (c : Prop) [Decidable c] (x y : Res α) :
+    (if c then x else y).proj f d = if c then x.proj f d else y.proj f d := by split <;> rfl
+theorem Res.proj_of_ok {α β} (f : St → β) (d : β) (r : Res α) (a : α) (t : St) (h : r = .ok a t) : r.proj f d = f t := by
+  subst h; rfl
+
+def isPortEv : Ev → Bool
+  | .ior _ _ => true | .iow _ _ => true | _ => false
+/-- the port events of a log (newest first, like the log) -/
+def portLog (l : List Ev) : List Ev := l.filter isPortEv
+@[simp] theorem portLog_mr (a v l) : portLog (.mr a v :: l) = portLog l := rfl
+@[simp] theorem portLog_mw (a v l) : portLog (.mw a v :: l) = portLog l := rfl
+@[simp] theorem portLog_retn (l) : portLog (.retn :: l) = portLog l := rfl
+@[simp] theorem portLog_reti (l) : portLog (.reti :: l) = portLog l := rfl
+@[simp] theorem portLog_warn (b l) : portLog (.warn b :: l) = portLog l := rfl
+@[simp] theorem portLog_ior (p v l) : portLog (.ior p v :: l) = .ior p v :: portLog l := rfl
+@[simp] theorem portLog_iow (p v l) : portLog (.iow p v :: l) = .iow p v :: portLog l := rfl
+
+/-- the I/O instructions -/
+def isIO : Instr → Bool
+  | .inAn => true | .outnA => true | .inC _ => true | .outC _ => true
+  | .blk .inp _ _ => true | .blk .out _ _ => true
+  | _ => false
+
+macro "proj_fin" : tactic =>
+  `(tactic| (simp [z80spec, isIO] <;> (repeat' (split <;> simp_all))))
+
+set_option maxHeartbeats 4000000 in
+/-- an instruction that is not an I/O instruction performs no port access at all -/
+theorem exec_no_port (i : Instr) (hio : isIO i = false) (s : St) :
+    (exec Impl.koron i s).proj (fun t => portLog t.log) (portLog s.log) = portLog s.log := by
+  cases i
+  case inAn => simp [isIO] at hio
+  case outnA => simp [isIO] at hio
+  case inC r => simp [isIO] at hio
+  case outC r => simp [isIO] at hio
+  case blk k d r => cases k <;> first | (simp [isIO] at hio; done) | proj_fin
+  case ld8 d s' => cases d <;> cases s' <;> proj_fin
+  case alu op src => cases src <;> proj_fin
+  case bit b l => cases l <;> proj_fin
+  case res b l => cases l <;> proj_fin
+  case set b l => cases l <;> proj_fin
+  case rot k l => cases l <;> proj_fin
+  case inc8 l => cases l <;> proj_fin
+  case dec8 l => cases l <;> proj_fin
+  case ld8n l => cases l <;> proj_fin
+  case add16 d s' => cases d <;> cases s' <;> proj_fin
+  case jpcc c => cases c <;> proj_fin
+  case jrcc c => cases c <;> proj_fin
+  case callcc c => cases c <;> proj_fin
+  case retcc c => cases c <;> proj_fin
+  all_goals first | proj_fin | (rename_i a; cases a <;> proj_fin)
+
 -- ---------------------------------------------------------------------------
 -- lifting to a whole reference step
 
